@@ -62,6 +62,9 @@ func checkC19(c *Ctx) {
 	c.Rule("C19-R17", "key callbacks become events with the right key: Ctrl plus a letter is looked up under \"Ctrl-\" and the lower-cased key name; a folding helper of the module's own is decided by constant evaluation over every one-character ASCII name (a range test short of 'Z' loses Ctrl-Z with Shift or CapsLock)")
 	c.Expect("C19-R17", 1)
 	checkWebCtrlNameFolding(c, p, "C19-R17")
+	c.Rule("C19-R18", "text with combining runes: what wScreen.drawCell does with the combining list is decided by the list alone, never by the main rune (a blank-cell shortcut loses the marks on a blank base)")
+	c.Expect("C19-R18", 1)
+	checkWebCombiningAlwaysSent(c, p, "C19-R18")
 	// R1
 	tpkg := p.pkg("")
 	if tpkg == nil {
